@@ -348,3 +348,19 @@ Section Plan.
                end)
     end.
 End Plan.
+
+(* ---- liveness read twice ------------------------------------------------------------------
+   Plan::next calls pick() first and fallback() only when a second target is asked for; a node's
+   pool may change state in between.  [en1 co1] = the liveness pick() saw, [en2 co2] = what
+   fallback() sees (all of it at once: the part of the iterator chain that is evaluated lazily
+   is read at that one later moment).  Only the branch in which pick() returned a target is
+   modelled this way (when pick() returns None the fallback iterator is created at once). *)
+Definition plan_two_reads (dcf rackf : N -> option N) (g : ring N) (keyspaces : list (N * strategy))
+    (en1 co1 en2 co2 : N -> bool) (shf : N -> N) (pol : policy) (rq : request)
+    (cho : nat -> nat -> nat) (shuf : nat -> list N -> list N) : option (list target) :=
+  match pick dcf rackf g keyspaces en1 co1 shf pol rq cho with
+  | Some p => Some (p :: filter (fun x => negb (target_eqb x p))
+                               (fallback dcf rackf g keyspaces en2 co2 shf pol rq cho shuf))
+  | None => None
+  end.
+
